@@ -23,7 +23,8 @@ func Run(r *core.Run) {
 	r.Set("evaluations", int(ev))
 	r.Set("distinct_nontrivial", r.NDistinct("cases"))
 	r.Set("rule", "evaluations = calls of the code under test: generator calls (one per enumerated reader answer for one draw: "+
-		"every raw byte string of the draw width for numPrimes=1, every value of the unmasked bits at draw positions 0 and 1 for numPrimes=2,3; "+
+		"for numPrimes=1 every raw byte string of the draw width (quick, two-byte draws: every value of the bits the generator keeps, masked-away bits all-zero and all-one), "+
+		"for numPrimes=2,3 every value of the unforced bits at draw positions 0 and 1; "+
 		"plus parameter/reader-error cases and, thorough, two 1024-bit runs) + Validate() calls on every pair (q, 2q+1 and near misses) below the size bound "+
 		"+ GenerateNTildei calls + sampler calls (every first-draw byte string per bound and sampler, boundary first draws for 2048-bit bounds) "+
 		"+ pre-parameter generations + schedules of part (b). A case is distinct when it differs in "+
